@@ -222,12 +222,16 @@ def run_translators():
         return translate.run_all(REPO, os.path.join(COQ, "gen"))
 
 
+PER_FILE_TIMEOUT = 900
+
+
 def coq_make(targets, timeout=1500):
     """Full .vo build of the given targets (paths relative to coq/, e.g. props/Properties_C15.vo)."""
     with _Lock("coq"):
         sync_coq()
         coq_project()
-        cmd = ["make", "-k", "-j%d" % NPROC] + list(targets)
+        # every coqc runs under its own timeout (coq_makefile's TIMECMD hook): one diverging file cannot stall the build
+        cmd = ["make", "-k", "-j%d" % NPROC, "TIMECMD=timeout %d" % PER_FILE_TIMEOUT] + list(targets)
         rc, o, e = sh(cmd, cwd=COQ, timeout=timeout)
     return rc == 0, o + e
 
